@@ -109,6 +109,25 @@ class HookFault(Exception):
     pass
 
 
+def _step_in_thread(coro):
+    """coro.send(None) executed on a fresh OS thread (joined at once: nothing runs concurrently)."""
+    import threading
+    box = []
+
+    def run():
+        try:
+            box.append(("tok", coro.send(None)))
+        except BaseException as e:  # noqa: BLE001
+            box.append(("exc", e))
+    t = threading.Thread(target=run)
+    t.start()
+    t.join()
+    kind, val = box[0]
+    if kind == "exc":
+        raise val
+    return val
+
+
 class OpRuntimeError(OpError, RuntimeError):
     """An operation failure that is also a RuntimeError (as many driver errors are)."""
 
@@ -259,6 +278,8 @@ DEFAULT_CFG = {
     "strat_obj": False,
     "rec_durs": [0],             # ticks spent inside the strategy object's record_failure (menu)
     "abort_kind": "method",      # "falsy-object": abort_if is a callable object whose bool() is False
+    "thread_hop": False,         # async, hand-driven: the first step of the coroutine runs on another
+                                 # OS thread than the rest (a coroutine is not pinned to a thread)
     "callable_kind": "plain",    # "falsy": handler / before_sleep / sleeper are callable objects whose
                                  # bool() is False (an empty queue that is itself the handler)
     "hook_dur": 0,               # ticks every on_metric / on_log invocation takes
@@ -305,6 +326,7 @@ class World:
         self.susp_after_throw = False
         self._last_op_exc = None
         self._abort_flag = False
+        self._bs_running = False
         self._in_async_op = False
         self._none_class = None
         self._repointed = None
@@ -607,6 +629,8 @@ class World:
             world.trace.append(("handler", which, getattr(ctx, "attempt", None), ticks(delay), d))
             if d == "BAD":
                 return "sleep-ish"
+            if d.startswith("S:"):
+                return d[2:]      # the plain string "defer" / "abort" / "sleep", not the enum
             return SleepDecision[d]
         return self._falsy(handler)
 
@@ -620,10 +644,14 @@ class World:
         if self.cfg["bs_async"]:
             async def before_sleep_async(ctx, delay):
                 world.trace.append(("bsleep", which, getattr(ctx, "attempt", None), ticks(delay)))
-                if world.loop is not None:
-                    await world.loop.pause(0.0)
-                elif world.cfg["suspend"]:
-                    await Suspend("bsleep")
+                world._bs_running = True
+                try:
+                    if world.loop is not None:
+                        await world.loop.pause(0.0)
+                    elif world.cfg["suspend"]:
+                        await Suspend("bsleep")
+                finally:
+                    world._bs_running = False
                 world.fault("before_sleep")
             if self.cfg["awaitable"] == "object":
                 return lambda ctx, delay: AwaitObj(lambda: before_sleep_async(ctx, delay))
@@ -635,6 +663,8 @@ class World:
         return self._falsy(before_sleep)
 
     def _do_sleep(self, which, s):
+        if self._bs_running:
+            self.trace.append(("overlap", "sleeper called while before_sleep is still running"))
         t0 = self.rel()
         self.fault("sleeper")
         over = self.cfg["overshoot"]
@@ -651,6 +681,8 @@ class World:
 
     async def _loop_sleep(self, which, s):
         """Sleeper on the virtual loop: really suspends for s (+ overshoot) of virtual time."""
+        if self._bs_running:
+            self.trace.append(("overlap", "sleeper called while before_sleep is still running"))
         t0 = self.rel()
         self.fault("sleeper")
         over = self.cfg["overshoot"]
@@ -857,7 +889,8 @@ class World:
                 exc.status = code
             self._last_op_exc = exc
         elif label == "abort":
-            exc = AbortRetryError()
+            # through the documented public alias (redress.AbortRetry is AbortRetryError)
+            exc = getattr(redress, "AbortRetry", AbortRetryError)()
         elif label == "kbd":
             exc = KeyboardInterrupt()
         elif label == "exit":
@@ -1091,6 +1124,8 @@ class World:
         """Run one call through ``entry`` (e.g. "Retry.call", "AsyncPolicy.execute", "deco")."""
         self.ncalls += 1
         self.op_n = 0
+        if not self._nesting:
+            self._abort_flag = False   # every top-level call has its own abort condition
         self.trace.append(("call", self.ncalls, entry, self.rel()))
         parts = entry.split(".")
         base = parts[0]
@@ -1144,11 +1179,21 @@ class World:
     def drive(self, coro):
         inject = self.cfg["inject"]
         try:
-            tok = coro.send(None)
+            if self.cfg["thread_hop"]:
+                tok = _step_in_thread(coro)
+            else:
+                tok = coro.send(None)
             while True:
                 tag = getattr(tok, "tag", None)
                 if tag is None:
-                    raise HarnessError(f"coroutine yielded foreign object {tok!r}")
+                    # the library awaits something that needs a running event loop (a Future):
+                    # a hand-driven coroutine cannot go on; the virtual-loop families cover this
+                    self.trace.append(("needs_loop", type(tok).__name__))
+                    try:
+                        coro.close()
+                    except RuntimeError:
+                        pass
+                    return ("closed",)
                 act = "resume"
                 if inject:
                     c = self.ch.choose("susp", 1 + len(inject), self.cfg["inject_free"])
